@@ -284,7 +284,18 @@ _amend("C05", "technique", "shared legality-filter rule of C01", "shared rules o
 _amend("C07", "technique", "loop-exit dominance in the deepening loop",
        "loop-exit dominance in the deepening loop; re-runs C02's successor rules, C15's store rules and C08's hash rules")
 _amend("C12", "technique", "writer call-sequence comparison", "writer call-sequence comparison; re-runs C02's resolution rule and C11's square-text rule")
-_amend("C10", "technique", "decoded fn-pointer dispatch table vs Piece discriminants", "decoded fn-pointer dispatch table vs Piece discriminants; re-runs C09's reader/writer slot rule")
+_amend("C10", "technique", "decoded fn-pointer dispatch table vs Piece discriminants", "decoded fn-pointer dispatch table vs Piece discriminants, guard inventory of the accumulation "
+       "(every piece contributes); re-runs C09's reader/writer slot rule and lookup-purity rule")
+_amend("C09", "technique", "constant folding", "reachability-scoped state inventory (no thread-local / mutable static behind the lookups), constant folding")
+_amend("C06", "technique", "mutation inventory of the node's move buffer)", "mutation inventory of the node's move buffer, dominance and path rules that every legal move reaches the recursive call); "
+       "re-runs C05's terminal-test rules and C08's hash rules")
+_amend("C05", "technique", "monotonicity abstract interpretation plus constant folding of mate_in_ply,", "monotonicity abstract interpretation plus constant folding of mate_in_ply, constant inventory of the "
+       "heuristic terms against the mate threshold, guard extraction for mate scores built inside the search,")
+_amend("C13", "technique", "purity (no thread-local / mutable static) of everything reachable from the evaluation",
+       "purity (no thread-local / mutable static) of everything reachable from the evaluation; re-runs C05's terminal rules, C10's attack-map rules and C02's successor rules")
+_amend("C18", "technique", "argument provenance go -> Search::spawn -> Searcher::analyze", "argument provenance go -> Search::spawn -> Searcher::analyze, path rule that no command line is swallowed before dispatch")
+_amend("C19", "technique", "static/thread-local inventory", "static/thread-local inventory; re-runs C04's control-loop rule")
+_amend("C08", "technique", "def-use provenance of every key consumed by table/history/book", "def-use provenance of every key consumed by table/history/book; re-runs C15's key-compare, routing and slot-write rules")
 
 
 NOT_BUILT_REASON = "check not built yet (see DESIGN.md for the plan)"
